@@ -3,6 +3,7 @@ import Heathcliff.Proofs.C10I
 import Heathcliff.Proofs.GenRns2
 import Heathcliff.Proofs.GenRns5
 import Heathcliff.Proofs.GenRns8
+import Heathcliff.Proofs.GenRns11
 
 /- Property theorems only (statements verbatim; proofs are the helper lemmas of Heathcliff/Proofs). -/
 namespace HC.C10
@@ -198,5 +199,13 @@ theorem gen_decrypt_scale_and_round_rounds {l : Level} (hd : DecOK l) {ph : RnsP
       out.length = l.n ∧ ∀ j, j < l.n →
         out.getD j 0 = Spec.imod (Spec.roundDiv ((l.t.value : Int) * Spec.centred (X j) l.tool.baseQ.prod) l.tool.baseQ.prod) l.t.value :=
   HC.gr_decrypt_scale_and_round_rounds hd hph dst hdst hops hnops hsn h2n hs64 X hX hnoise
+
+/-- `RNSTool::fastbconv_sk` (Shenoy–Kumaresan conversion Bsk → q) generated from the source = `RNSTool.fastbconvSk`; flat input of `|B| + 1` components, ANY
+    destination of `|q|` components; its two receiver calls are the generated `fast_convert_array` on the model's `bToQ` / `bToMsk`; the element borrow
+    `let dest = &mut destination[i * coeff_count + j]` is read as index + in-place access; every checked operation traps on both sides alike -/
+theorem gen_fastbconv_sk_eq : type_of% @HC.gr_fastbconv_sk_eq := @HC.gr_fastbconv_sk_eq
+/-- END TO END (exact window): if coefficient `j` holds the residues of an integer `V j` modulo the primes of `B` and modulo `m_sk` and
+    `2|V j| + 2·|B|·prod(B) ≤ prod(B)·m_sk`, the GENERATED `fastbconv_sk` writes `V j mod q_i` at position `i·n + j` of any destination buffer -/
+theorem gen_fastbconv_sk_exact : type_of% @HC.gr_fastbconv_sk_exact := @HC.gr_fastbconv_sk_exact
 
 end HC.C10
